@@ -353,6 +353,7 @@ def run_history(ct, net, ssa0, abstract_ops, seed, arrays=None):
     """Execute a history on the real object.  Returns a dict with the trace for
     TreeHistoryJudge, program cases for ProgramJudge and harness-side findings."""
     rng = random.Random(seed)
+    arrays_are_canonical = arrays is None
     arrays = arrays if arrays is not None else nets.canon_arrays(net)
     res = {"trace": None, "programs": [], "findings": [], "cops": [], "probes": []}
     tree = observe.build_tree(ct, net, ssa0)
@@ -401,7 +402,13 @@ def run_history(ct, net, ssa0, abstract_ops, seed, arrays=None):
                                 "mayslice": mayslice, "snap": o["snap"],
                                 "rebuild_equal": not o["rebuild"], "rebuild_diffs": o["rebuild"]})
         for ki, steps in o["programs"]:
-            case = observe.program_case(net, tree, steps)
+            # for a sample of the steps the numeric value (canonical arrays) goes to TLC as well: ProgramJudge then
+            # compares it with Einsum(net, ProjFix(sliced)) evaluated by TLC
+            val = None
+            if ki == 0 and "got" in o and not o["value_bad"] and rng.random() < 0.08 and o["ref"].size <= 48 \
+                    and nets.fits32(o["ref"]) and arrays_are_canonical:
+                val = o["got"]
+            case = observe.program_case(net, tree, steps, value=val, refvalue=o["ref"] if val is not None else None)
             res["programs"].append((k, cop["op"], ki, case))
     # aliasing probes: trees set aside at a copy must still be in the state they had then
     for tr_, (at, ch_, sl_, rb_, vb_, er_, sk_) in zip(side, side_state):
